@@ -328,9 +328,9 @@ private:
 
 class DeferredWriter {
 public:
-    void deferred_write(File&& file, const std::string& destination_path, bool is_new_name, filesystem::perms permissions_after, std::function<void(const std::string&)> prepare_callback, std::function<void(const std::string&)> permission_callback)
+    void deferred_write(File&& file, const std::string& destination_path, bool is_new_name, filesystem::perms permissions_after, Backup* backup, std::function<void(const std::string&)> prepare_callback, std::function<void(const std::string&)> permission_callback)
     {
-        m_deferred_writes.push_back(FileWrite { std::move(file), destination_path, is_new_name, permissions_after, std::move(prepare_callback), std::move(permission_callback) });
+        m_deferred_writes.push_back(FileWrite { std::move(file), destination_path, is_new_name, permissions_after, backup, std::move(prepare_callback), std::move(permission_callback) });
     }
 
     // The source of a rename may only be removed once its content has been written to the new name.
@@ -377,6 +377,13 @@ public:
             // The directory may have gone with the last file which a later patch of this run removed from it.
             ensure_parent_directories(deferred_write.destination_path);
 
+            // The one backup of a file holds what it was before the first patch of this run wrote to it,
+            // whichever of the patches to that file it is that asks for the backup.
+            for (const auto& other : m_deferred_writes) {
+                if (other.backup && other.destination_path == deferred_write.destination_path)
+                    other.backup->make_backup_for(deferred_write.destination_path);
+            }
+
             deferred_write.prepare_callback(deferred_write.destination_path);
             File file(deferred_write.destination_path, std::ios_base::out | std::ios::trunc);
             deferred_write.source.write_entire_contents_to(file);
@@ -396,6 +403,7 @@ private:
         std::string destination_path;
         bool is_new_name;
         filesystem::perms permissions_after;
+        Backup* backup;
         std::function<void(const std::string&)> prepare_callback;
         std::function<void(const std::string&)> permission_callback;
     };
@@ -525,7 +533,7 @@ void write_patched_result_to_file(const Patch& patch, const std::string& output_
             filesystem::symlink(symlink_target, output_file_path);
         } else {
             const auto permissions_after = new_mode_copy != 0 ? static_cast<filesystem::perms>(new_mode_copy) & filesystem::perms::mask : permission_result.old_permissions;
-            deferred_writer.deferred_write(std::move(patched_file), output_file_path, patch.operation == Operation::Rename || patch.operation == Operation::Copy, permissions_after, std::move(prepare_callback), std::move(permission_callback));
+            deferred_writer.deferred_write(std::move(patched_file), output_file_path, patch.operation == Operation::Rename || patch.operation == Operation::Copy, permissions_after, backup, std::move(prepare_callback), std::move(permission_callback));
         }
     } else {
         prepare_callback(output_file_path);
